@@ -90,7 +90,7 @@ def dwidth(s):
 
 SEP_CHOICES = [(None, b""), ("\\n--\\n", b"\n--\n"), ("\\t", b"\t"), ("<SEP>", b"<SEP>"), ("\\0", b"\x00"), ("\\e[K\\\\", b"\x1b[K\\"),
                ("\\a\\b\\f\\v\\r", b"\x07\x08\x0c\x0b\r")]
-PSEP_CHOICES = [None, "|", " <> ", "::", "\t"]
+PSEP_CHOICES = [None, "|", " <> ", "::", "\t", "%", "%d|", "100%% ", "é→"]
 TZ_ENVS = [("UTC", 0), ("<+0530>-5:30", 330), ("<-08>8", -480), ("<+1245>-12:45", 765)]
 
 
